@@ -200,6 +200,84 @@ def run_setting(cfg, sid, transport, full, seed):
     return n, vio, len(encs)
 
 
+ENV_LATENCY = (0.001, 0.35, 0.6, 0.9)
+
+
+def run_env(cfg, sid, transport, ka, latency, reject, seed):
+    """One setting written and read back in a less friendly environment: keep-alive on/off, a slow inverter (several
+    requests of one write_setting() together last longer than one timeout), or one request of the call answered with a
+    Modbus exception.  Whenever write_setting() reports success: exactly one write reached the inverter, the registers
+    hold the encoding and the setting reads back."""
+    vio = []
+    n = 0
+    probe = make_rig(cfg, transport, fill=lambda a: 0)
+    if probe.call(probe.inv.read_device_info)[0] != 'ok':
+        return 0, []
+    s0 = probe.inv._settings.get(sid)
+    if s0 is None or not in_scope(cfg, s0):
+        return 0, []
+    vals = domain(s0, False)
+    vals = [vals[0], vals[len(vals) // 2]]
+    t = type(s0).__name__
+    nregs = (refdec.size_of(s0) + 1) // 2 if t not in ('ByteH', 'ByteL') else 1
+    for v in vals:
+        # number of requests of the fault-free call (for the fault positions)
+        ks = [None]
+        if reject:
+            l0 = len(probe.dev.log)
+            probe.call(probe.inv.write_setting, sid, v)
+            ks = list(range(len(probe.dev.log) - l0))
+        for k in ks:
+            r = make_rig(cfg, transport, fill=lambda a: ((a * 40503 + seed * 31 + 7) & 0xFFFF) % 60000, T=1, R=1, ka=ka)
+            inv, dev = r.inv, r.dev
+            dev.latency = latency
+            if r.call(inv.read_device_info)[0] != 'ok':
+                continue
+            s = inv._settings.get(sid)
+            prior_bytes = dev.rf.getbytes(s.offset, nregs)
+            w0, l0 = len(dev.writes), len(dev.log)
+            if k is not None:
+                dev.reject_at = {l0 + k: reject}
+            res = r.call(inv.write_setting, sid, v)
+            dev.reject_at = {}
+            n += 1
+            vs = v.hex() if isinstance(v, bytes) else str(v)
+            env = f"ka={int(ka)},latency={latency}" + (f',request#{k}->exception {reject}' if k is not None else '')
+            if res[0] != 'ok':
+                if k is None:
+                    vio.append((f'write-succeeds/{t}/env', f'write_setting({sid!r}, {vs}) -> {res[1:]} ({env})', vs))
+                continue
+            want = refdec.encode(s, v, prior_bytes)
+            writes = dev.writes[w0:]
+            if len(writes) != 1:
+                vio.append((f'exactly-one-write/{t}/env', f'{sid}={vs}: {len(writes)} write requests reached the inverter ({env})', vs))
+            elif dev.rf.getbytes(s.offset, nregs) != want:
+                vio.append((f'carries-the-encoding/{t}/env', f'{sid}={vs}: registers {dev.rf.getbytes(s.offset, nregs).hex()}, '
+                                                             f'encoding {want.hex()} ({env})', vs))
+            back = r.call(inv.read_setting, sid)
+            if back[0] == 'ok' and not isinstance(v, bytes) and not (refdec.same(back[1], v) or back[1] == v) \
+                    and t not in ('Decimal', 'Voltage', 'Current', 'CurrentS'):
+                vio.append((f'reads-back/{t}/env', f'{sid}: wrote {vs}, read back {back[1]!r} ({env})', vs))
+    return n, vio
+
+
+def job_env(j):
+    cfg, sid, transport, ka, latency, reject, seed = j
+    n, vio = run_env(cfg, sid, transport, ka, latency, reject, seed)
+    out = {}
+    for key, cause, vs in vio:
+        kk = f"{key}/{cfg['name']}"
+        out.setdefault(kk, []).append(dict(key=kk, clause=key.split('/')[0],
+                                           replay=dict(part='env', cfg=cfg, sid=sid, transport=transport, ka=ka,
+                                                       latency=latency, reject=reject, seed=seed),
+                                           detail=dict(cause=cause, setting=sid, value=vs)))
+    res = []
+    for key, lst in out.items():
+        lst[0]['n'] = len(lst)
+        res.append(lst[0])
+    return n, res
+
+
 def job(j):
     cfg, sid, transport, full, seed = j
     n, vio, ne = run_setting(cfg, sid, transport, full, seed)
@@ -245,13 +323,36 @@ def run(tier, seed, rep):
                 full = tier == 'thorough' and ((transport == 'udp' and cfg['name'] in ('ET-v2', 'DT-3ph', 'DT-1ph', 'ES-aa55', 'ES-v2'))
                                                or (sid in fullset and (transport == 'udp' or cfg['name'] == 'ET-v2')))
                 jobs.append((cfg, sid, transport, full, seed))
+    ejobs = []
+    for cfg in settings_configs():
+        if cfg['family'] == 'ES':
+            continue
+        r = make_rig(cfg)
+        r.call(r.inv.read_device_info)
+        bytype = {}
+        for s in r.inv.settings():
+            if in_scope(cfg, s):
+                bytype.setdefault(type(s).__name__, []).append(s.id_)
+        for ids in bytype.values():
+            sid = ids[seed % len(ids)]
+            for transport in ('udp', 'tcp'):
+                for ka in (False, True):
+                    for lat in ENV_LATENCY:
+                        ejobs.append((cfg, sid, transport, ka, lat, 0, seed))
+                    if transport == 'udp' or tier == 'thorough':
+                        for code in (3, 4, 6):
+                            ejobs.append((cfg, sid, transport, ka, 0.001, code, seed))
+    nenv = 0
+    for n, res in pmap(job_env, ejobs, chunksize=4):
+        nenv += n
+        rep.add_many(res)
     total = 0
     ne = 0
     for n, res, e in pmap(job, jobs, chunksize=2):
         total += n
         ne += e
         rep.add_many(res)
-    cov = dict(api_session_histories=_api['histories'], api_session_states=_api['states'],
+    cov = dict(environment_runs=nenv, api_session_histories=_api['histories'], api_session_states=_api['states'],
                states=max(ne, 1), transitions=max(total, 1), executions=total, traces_validated_against_impl=total,
                settings_jobs=len(jobs), distinct_encodings_written=ne, exhaustive=(tier == 'thorough'),
                bound='every setting of ET (eco v1 / v2 / 745 variants), DT (single / three phase) and the register-addressed ES '
@@ -279,5 +380,8 @@ def replay(r):
     cfg['refused'] = tuple(cfg['refused'])
     if 'firmware' in cfg and isinstance(cfg['firmware'], dict):
         cfg['firmware'] = bytes.fromhex(cfg['firmware']['hex'])
+    if r.get('part') == 'env':
+        n, vio = run_env(cfg, r['sid'], r['transport'], r['ka'], r['latency'], r['reject'], r['seed'])
+        return dict(evaluations=n, violations=[(a, b) for a, b, c in vio])
     n, vio, _ = run_setting(cfg, r['setting'], r['transport'], False, 0)
     return dict(evaluations=n, violations=[(a, b) for a, b, c in vio])
